@@ -1,0 +1,22 @@
+//go:build verif
+
+package typeutil
+
+import (
+	"go/types"
+
+	"github.com/goplus/gogen/internal/typeparams"
+)
+
+// This file exists only for the external verification harness (build tag
+// "verif"); it adds exported wrappers and changes no behaviour.
+
+// VerifInterfaceTermSet exposes the normalised term set the hasher uses.
+func VerifInterfaceTermSet(t *types.Interface) ([]*types.Term, error) {
+	return typeparams.InterfaceTermSet(t)
+}
+
+// VerifUnionTermSet exposes the normalised term set the hasher uses.
+func VerifUnionTermSet(t *types.Union) ([]*types.Term, error) {
+	return typeparams.UnionTermSet(t)
+}
